@@ -3,6 +3,9 @@
 Documentation (DataFrameSchema `unique`): "a list of columns that should be jointly unique" (a list of lists = several such groups).
     passes  <=>  unique is not set, or in every group no two rows agree on ALL columns of the group (restricted to the columns that are
                  present in the frame: an absent column is check_column_presence's business)
+    EVERY violated group is reported (one failing result each, with that group's duplicated rows): the lazy report names every offending
+    cell (C02) and drop_invalid_rows removes the rows of every violated constraint - otherwise validate returns a frame that the schema
+    rejects (C03 / C11).
     pandas: the reported rows are those `duplicated(subset, keep=convert_uniquesettings(report_duplicates))` marks
 For all frames (all lengths, values, nulls), every report_duplicates value, the groups None / ['a'] / ['a','b'] / [['a'],['b']] / ['a','z']
 / ['z'] / [['z'],['a']] (z absent from the frame: a group none of whose columns is present constrains nothing - the absent
@@ -45,8 +48,7 @@ class PandasJointUniqueness(Contract):
         PL.install(I)
 
         def reshape(I, failure_cases, ignore_na=True):
-            cur().ghost["reported"] = failure_cases
-            cur().ghost["reported_ignoring_nulls"] = ignore_na
+            cur().ghost.setdefault("reported", []).append((failure_cases, ignore_na))
             return core.SAny(name="failure_cases")
 
         I.models[id(resolve_target(RESHAPE))] = reshape
@@ -64,15 +66,33 @@ class PandasJointUniqueness(Contract):
 
     def ensures(self, result, old, self_, check_obj, schema):
         u = schema.attrs["unique"]
-        passed = result.attrs["passed"]
-        want = And(*[no_two_rows_agree(check_obj.sel, [check_obj.col_fn(c) for c in g if c in ("a", "b")]) for g in groups_of(u) if any(c in ("a", "b") for c in g)]) if u else True
-        out = {"is_a_result": isinstance(result, Obj) and result.cls is CoreCheckResult, "verdict": Iff(passed, want)}
-        if passed is not True:
-            out["reason"] = Implies(Not(passed), result.attrs["reason_code"] is SchemaErrorReason.DUPLICATES)
-        if "reported" in cur().ghost:
-            # rows that repeat each other in a NULL cell are duplicates as well: the report keeps those cells (C02)
-            out["duplicated_nulls_are_reported_as_well"] = cur().ghost.get("reported_ignoring_nulls") is False
+        results = as_results(result)
+        out = {"is_a_result_or_a_list_of_results": results is not None}
+        if results is None:
+            return out
+        present = [[c for c in g if c in ("a", "b")] for g in groups_of(u)]
+        present = [p for p in present if p]
+        unique_k = [no_two_rows_agree(check_obj.sel, [check_obj.col_fn(c) for c in p]) for p in present]
+        out["verdict"] = Iff(And(*[r.attrs["passed"] for r in results]), And(*unique_k) if unique_k else True)
+        failing = [r for r in results if r.attrs["passed"] is not True]
+        out["reason"] = all(r.attrs["reason_code"] is SchemaErrorReason.DUPLICATES for r in failing)
+        reported = cur().ghost.get("reported", [])
+        # rows that repeat each other in a NULL cell are duplicates as well: the report keeps those cells (C02)
+        out["duplicated_nulls_are_reported_as_well"] = all(ign is False for _, ign in reported)
+        out["one_report_per_failing_result"] = len(reported) == len(failing)
+        # every violated constraint is reported, and only those (a report is identified by the columns it lists)
+        for p, uk in zip(present, unique_k):
+            is_reported = any(getattr(fc, "projected", None) == p for fc, _ in reported)
+            out["every_violated_constraint_is_reported"] = And(out.get("every_violated_constraint_is_reported", True), Iff(Not(uk), is_reported))
         return out
+
+
+def as_results(result):
+    """the CoreCheckResults a core check returned (one, or a list of them)"""
+    rs = [result] if isinstance(result, Obj) else (list(result) if isinstance(result, (list, ListObj)) else None)
+    if not rs or not all(isinstance(r, Obj) and r.cls is CoreCheckResult for r in rs):
+        return None
+    return rs
 
 
 def _absent_group_probe(mod_name):
@@ -103,7 +123,52 @@ def _absent_group_probe(mod_name):
     return bad, obs
 
 
-PandasJointUniqueness.concretize = lambda self, rec: (lambda: _absent_group_probe("pandas"))
+def _every_group_probe(mod_name):
+    """two violated constraints: the lazy report names the duplicated rows of both, and drop_invalid_rows returns a frame the schema accepts"""
+    import warnings
+
+    import pandas as pd
+    import polars as pl
+    import pandera as pa
+    import pandera.polars as pp
+
+    warnings.simplefilter("ignore")
+    mod, mk = (pa, pd.DataFrame) if mod_name == "pandas" else (pp, pl.DataFrame)
+    obs, bad = {}, False
+    data = {"a": [1, 1, 2, 3], "b": [5, 6, 7, 7]}
+    cols = {"a": mod.Column(int), "b": mod.Column(int)}
+    try:
+        mod.DataFrameSchema(cols, unique=[["a"], ["b"]]).validate(mk(data), lazy=True)
+        rows = "accepted"
+    except pa.errors.SchemaErrors as e:
+        fc = e.failure_cases if mod_name == "pandas" else e.failure_cases.to_pandas()
+        rows = sorted({int(i) for i in fc["index"] if i is not None and i == i})
+    if rows != [0, 1, 2, 3]:
+        bad = True
+        obs[f"{mod_name}: unique=[['a'],['b']] on {data}, lazy: rows named in the report"] = f"{rows}, expected [0, 1, 2, 3]"
+    try:
+        out = mod.DataFrameSchema(cols, unique=[["a"], ["b"]], drop_invalid_rows=True).validate(mk(data), lazy=True)
+        try:
+            mod.DataFrameSchema(cols, unique=[["a"], ["b"]]).validate(out)
+            again = "accepted"
+        except (pa.errors.SchemaError, pa.errors.SchemaErrors):
+            again = "REJECTED by the same schema"
+        got = f"{len(out)} rows, {again}"
+    except Exception as e:  # noqa: BLE001
+        got = f"raised {type(e).__name__}"
+    if got != "0 rows, accepted":
+        bad = True
+        obs[f"{mod_name}: the same with drop_invalid_rows=True returns"] = f"{got}; expected 0 rows, accepted"
+    return bad, obs
+
+
+def _pandas_probe():
+    b1, o1 = _absent_group_probe("pandas")
+    b2, o2 = _every_group_probe("pandas")
+    return b1 or b2, {**o1, **o2}
+
+
+PandasJointUniqueness.concretize = lambda self, rec: _pandas_probe
 
 
 class PolarsJointUniqueness(Contract):
@@ -136,29 +201,46 @@ class PolarsJointUniqueness(Contract):
     def ensures(self, result, old, self_, check_obj, schema):
         lf = cur().ghost["lf"]
         u = schema.attrs["unique"]
-        passed = result.attrs["passed"]
-        want = And(*[no_two_rows_agree(lf.sel, [lf.cols[c] for c in g if c in lf.cols]) for g in groups_of(u) if any(c in lf.cols for c in g)]) if u else True
-        out = {"is_a_result": isinstance(result, Obj) and result.cls is CoreCheckResult, "verdict": Iff(passed, want)}
-        if passed is not True:
-            out["reason"] = Implies(Not(passed), result.attrs["reason_code"] is SchemaErrorReason.DUPLICATES)
-        if passed is False:
+        results = as_results(result)
+        out = {"is_a_result_or_a_list_of_results": results is not None}
+        if results is None:
+            return out
+        present = [[lf.cols[c] for c in g if c in lf.cols] for g in groups_of(u)]
+        present = [p for p in present if p]
+        unique_k = [no_two_rows_agree(lf.sel, p) for p in present]
+        out["verdict"] = Iff(And(*[r.attrs["passed"] for r in results]), And(*unique_k) if unique_k else True)
+        failing = [r for r in results if r.attrs["passed"] is not True]
+        out["reason"] = all(r.attrs["reason_code"] is SchemaErrorReason.DUPLICATES for r in failing)
+        masks = []
+        for r in failing:
             # the failing result goes to the lazy report (PolarsSchemaBackend.failure_cases_metadata, which refuses a LazyFrame with
             # NotImplementedError and numbers the rows through check_output) and to drop_invalid_rows (row-aligned check_output):
-            fc = result.attrs.get("failure_cases")
-            out["failure_cases_are_materialised"] = isinstance(fc, PP.FrameP) and fc.kind == "DataFrame"
+            fc = r.attrs.get("failure_cases")
+            out["failure_cases_are_materialised"] = And(out.get("failure_cases_are_materialised", True), isinstance(fc, PP.FrameP) and fc.kind == "DataFrame")
             # ... and numbers the i-th failure case by the i-th false entry of the row mask: they come in row order
-            out["failure_cases_come_in_row_order"] = isinstance(fc, PP.FrameP) and getattr(fc, "rows_in_data_order", True) is True
-            co = result.attrs.get("check_output")
+            out["failure_cases_come_in_row_order"] = And(out.get("failure_cases_come_in_row_order", True), isinstance(fc, PP.FrameP) and getattr(fc, "rows_in_data_order", True) is True)
+            co = r.attrs.get("check_output")
             ok = isinstance(co, PP.FrameP) and PP.CHECK_OUTPUT_KEY in co.cols
-            out["reports_a_row_aligned_check_output"] = ok
+            out["reports_a_row_aligned_check_output"] = And(out.get("reports_a_row_aligned_check_output", True), ok)
             if ok:
-                k, m = z3.Int(cur().fresh_name("k")), z3.Int(cur().fresh_name("m"))
-                groups = [[lf.cols[c] for c in g if c in lf.cols] for g in groups_of(u) if any(c in lf.cols for c in g)]
-                g0 = groups[0]  # (the first violated group is the one reported; with one group it is that group)
-                if len(groups) == 1:
-                    same = [z3.Or(z3.And(c.null(k), c.null(m)), z3.And(z3.Not(c.null(k)), z3.Not(c.null(m)), core.as_z3_bool(py_eq(c.at(k), c.at(m))))) for c in g0]
-                    dup = z3.Exists([m], z3.And(lf.sel(m), m != k, *same))
-                    out["check_output_false_exactly_on_duplicated_rows"] = SBool(z3.Implies(lf.sel(k), core.as_z3_bool(co.cols[PP.CHECK_OUTPUT_KEY].at(k)) == z3.Not(dup)))
+                masks.append(co.cols[PP.CHECK_OUTPUT_KEY])
+        if len(masks) == len(failing):
+            k = z3.Int(cur().fresh_name("k"))
+
+            def duplicated_in(p, k):
+                m = z3.Int(cur().fresh_name("m"))
+                same = [z3.Or(z3.And(c.null(k), c.null(m)), z3.And(z3.Not(c.null(k)), z3.Not(c.null(m)), core.as_z3_bool(py_eq(c.at(k), c.at(m))))) for c in p]
+                return z3.Exists([m], z3.And(lf.sel(m), m != k, *same))
+
+            # every violated constraint has a failing result whose mask is false exactly on ITS duplicated rows, and every failing
+            # result is the mask of a violated constraint
+            for p, uk in zip(present, unique_k):
+                mine = [SBool(z3.ForAll([k], z3.Implies(lf.sel(k), core.as_z3_bool(mk.at(k)) == z3.Not(duplicated_in(p, k))))) for mk in masks]
+                out["every_violated_constraint_is_reported_with_its_duplicated_rows"] = And(
+                    out.get("every_violated_constraint_is_reported_with_its_duplicated_rows", True), Implies(Not(uk), Or(*mine) if mine else False))
+            for mk in masks:
+                whose = [And(Not(uk), SBool(z3.ForAll([k], z3.Implies(lf.sel(k), core.as_z3_bool(mk.at(k)) == z3.Not(duplicated_in(p, k)))))) for p, uk in zip(present, unique_k)]
+                out["every_failing_result_is_a_violated_constraint"] = And(out.get("every_failing_result_is_a_violated_constraint", True), Or(*whose) if whose else False)
         return out
 
     def concretize(self, rec):
@@ -199,7 +281,9 @@ class PolarsJointUniqueness(Contract):
                 obs["drop_invalid_rows with unique=['a'] on [1,1,2]"] = "raised " + type(e).__name__
             b2, o2 = _absent_group_probe("polars")
             obs.update(o2)
-            return bad or b2, obs or "joint uniqueness violations are reported through SchemaError / SchemaErrors"
+            b3, o3 = _every_group_probe("polars")
+            obs.update(o3)
+            return bad or b2 or b3, obs or "joint uniqueness violations are reported through SchemaError / SchemaErrors"
 
         return thunk
 
